@@ -64,7 +64,7 @@ def run(tier, prop='C03'):
                  unwind=k + 40, timeout=T, mem_gb=24, envs=PIPE_ENVS, replay='none', cbmc_extra=FS, note='one schedule (run until blocked), all input contents symbolic'))
     r.run_all(jobs=10)
     # (4) confirmation on the real step functions for anything that failed in (1) or (2); also a standing differential validation of the model
-    bad = [o for o in r.obs if o.status == 'CEX' and (o.name.startswith('refine-') or o.name.startswith('model-'))]
+    bad = [o for o in r.obs if o.status == 'CEX']
     nseeds = 300 if tier == 'quick' else 3000
     searches = []
     try:
@@ -78,8 +78,38 @@ def run(tier, prop='C03'):
         hit = None
     r.extra_cov['real_code_random_schedules'] = searches
     hits = [s for s in searches if s['failing']]
+    def replay_canonical(o):
+        """deterministic replay of a canonical-schedule counterexample: the same harness and the same generated C (the real code's IR, validated
+        against the real build) compiled natively, inputs from the solver trace"""
+        u = U_kern_pipe(1)
+        cfile, m = r.b.translate(u)
+        d = r.ws.path('creplay_' + re.sub(r'\W', '_', o.name)); os.makedirs(d, exist_ok=True)
+        inc = os.path.join(d, 'replay_inputs.h')
+        open(inc, 'w').write('#define REPLAY_ASSIGN() do { %s } while (0)\n' % ' '.join(a + ';' for a in (o.trace_inputs or [])))
+        exe = os.path.join(d, 'replay')
+        envs = [os.path.join(VERIF, 'env', e) for e in PIPE_ENVS]
+        cmd = ['gcc', '-std=gnu11', '-w', '-O1', '-include', inc, '-I' + os.path.join(VERIF, 'engine'), '-I' + os.path.join(VERIF, 'env'), '-I' + os.path.join(VERIF, 'harness'), '-DMODEL_NATIVE'] + \
+              ['-D' + x for x in o.defines] + [cfile] + envs + [os.path.join(VERIF, 'harness', 'h_pipe.c'), '-lm', '-o', exe]
+        rr = subprocess.run(cmd, stdout=subprocess.PIPE, stderr=subprocess.PIPE, text=True)
+        if rr.returncode != 0:
+            return 'ERROR: ' + rr.stderr[-400:]
+        try:
+            p = subprocess.run([exe], stdout=subprocess.PIPE, stderr=subprocess.PIPE, text=True, timeout=30)
+        except subprocess.TimeoutExpired:
+            return 'REPRODUCED (hang)'
+        if 'REPLAY-PASS' in p.stdout:
+            return 'NOT-REPRODUCED'
+        mm = re.search(r'REPLAY-FAIL: (.*)', p.stdout + p.stderr)
+        return 'REPRODUCED (real thread bodies as step functions under the canonical schedule, native run: %s)' % (mm.group(1) if mm else 'exit %d' % p.returncode)
     for o in bad:
         o.replay = 'native'
+        if o.name.startswith('realcode-canonical') and not hits:
+            o.replay_result = replay_canonical(o)
+            if o.replay_result.startswith('REPRODUCED'):
+                rp = os.path.join(VERIF, 'replay'); os.makedirs(rp, exist_ok=True)
+                o.replay_path = os.path.join(rp, '%s-%s.json' % (prop, hashlib.sha1(o.name.encode()).hexdigest()[:10]))
+                json.dump(dict(property=prop, obligation=o.name, kind='canonical', defines=o.defines, assignments=o.trace_inputs, failed=o.failed_props[:4]), open(o.replay_path, 'w'), indent=1)
+            continue
         if hits:
             s = hits[0]
             o.replay_result = 'REPRODUCED (real thread bodies as step functions, T=%d, %d full chunks, pseudo-random schedule seed %d: %s)' % (s['threads'], s['full_chunks'], s['failing'][0], s['failing'][1])
@@ -106,6 +136,9 @@ def run(tier, prop='C03'):
 
 def replay(rp):
     r = Run(rp['property'], 'replay')
+    if rp.get('kind') == 'canonical':
+        print('re-run ./check %s quick: canonical-schedule counterexamples are deterministic (obligation %s, defines %s)' % (rp['property'], rp['obligation'], rp['defines']))
+        return 1
     s = rp['config']
     hit = native_schedule_search(r, s['threads'], s['full_chunks'], s['last_blocks'], s['chunk_blocks'], max(s['failing'][0], 1) if s.get('failing') else 300)
     print('schedule search:', hit)
